@@ -108,6 +108,21 @@ def mm_text(M, N, K, kern, layouts=None, gram=False):
     return text
 
 
+def split_schedule_text(layouts):
+    """32 x 8 x 16 quantised matmul given as a dart.schedule whose M loop is already split over two tile levels: dims (m0:2, m1:2, k1:2 | m:8, n:8, k:8)"""
+    import re
+
+    text = mm_text(32, 8, 16, "qmac", layouts)
+    maps = [
+        "affine_map<(d0, d1, d2, d3, d4, d5) -> (d0 * 16 + d1 * 8 + d3, d2 * 8 + d5)>",
+        "affine_map<(d0, d1, d2, d3, d4, d5) -> (d2 * 8 + d5, d4)>",
+        "affine_map<(d0, d1, d2, d3, d4, d5) -> (d0 * 16 + d1 * 8 + d3, d4)>",
+    ]
+    text = text.replace('"dart.operation"', '"dart.schedule"')
+    text = re.sub(r"patterns = \[.*?\], accelerator", "patterns = [" + ", ".join(maps) + "], tiles = [[]], bounds = [2 : index, 2 : index, 2 : index, 8 : index, 8 : index, 8 : index], accelerator", text, count=1)
+    return text
+
+
 def simd_text(M, K):
     """rescale-only use of snax_gemmx: D8 = rescale(C)"""
     ti, to = f'memref<{M}x{K}xi32, "L1">', f'memref<{M}x{K}xi8, "L1">'
@@ -198,6 +213,23 @@ def hand_layouts(R, C, tile=8, pitchpad=0):
     return out
 
 
+def hand3_layouts(R, C, tile=8):
+    """three tile levels in the row dimension (R = 2 * 2 * 8): the two outer levels in both stride orders, row tiles before / after the column tiles"""
+    assert R == 4 * tile
+    co = C // tile
+    t = tile * tile
+    out = []
+    for rows_first in (0, 1):
+        if rows_first:
+            s_in, sc = t, t * 4  # the four row tiles of one column tile are adjacent
+        else:
+            s_in, sc = t * co, t  # the column tiles of one row tile are adjacent
+        for swap in (0, 1):
+            a, b = (2 * s_in, s_in) if not swap else (s_in, 2 * s_in)
+            out.append([[(2, a), (2, b), (tile, tile)], [(co, sc), (tile, 1)]])
+    return out
+
+
 _CHOSEN = {}
 
 
@@ -234,6 +266,11 @@ def space(tier):
             for i in range(8):
                 cases.append(("mm", M, N, K, "qmac", "hand", which * 8 + i))
                 cases.append(("mm", M, N, K, "qmac", "hand2", which * 8 + i))
+    # three tile levels in one dimension (A: 32 x K, C: 32 x N)
+    for (M, N, K) in [(32, 8, 16), (32, 16, 8)]:
+        for which in (0, 2):
+            for i in range(4):
+                cases.append(("mm", M, N, K, "qmac", "hand3", which * 8 + i))
     # one buffer as two operands with different access patterns: D = X * X^T
     for M, K in itertools.product(S, repeat=2):
         for kern in ("qmac", "mac", "rescale", "gemm"):
@@ -243,6 +280,10 @@ def space(tier):
     for n in (8, 16, 40):
         for lay in ("tiled", "untiled", "none"):
             cases.append(("alu2", (n,), lay))
+    # a schedule whose row loop is already split over the two outer tile levels of a three-level layout (every stride order)
+    for which in (0, 2):
+        for i in range(4):
+            cases.append(("split3", which, i))
     # rescale-only use of the gemmx array
     for M, K in itertools.product(S, repeat=2):
         for lay in ("tiled", "untiled"):
@@ -287,7 +328,16 @@ def evaluate(case) -> CaseResult:
     if kind == "mm":
         _, M, N, K, kern, lay, hidx = case
         layouts = None
-        if lay in ("hand", "hand2"):
+        if lay == "hand3":
+            which, i = divmod(hidx, 8)
+            chosen = _chosen_layouts(M, N, K)
+            if chosen is None:
+                r.rejected = "no-chosen-layouts"
+                return r
+            shapes = [(M, K), (K, N), (M, N)]
+            layouts = list(chosen) + [None]
+            layouts[which] = tsl(hand3_layouts(*shapes[which])[i])
+        elif lay in ("hand", "hand2"):
             which, i = divmod(hidx, 8)
             chosen = _chosen_layouts(M, N, K)
             if chosen is None:
@@ -298,6 +348,18 @@ def evaluate(case) -> CaseResult:
             layouts[which] = tsl(hand_layouts(*shapes[which], pitchpad=8 if lay == "hand2" else 0)[i])
         text = mm_text(M, N, K, kern, layouts)
         acc = "snax_gemmx"
+    elif kind == "split3":
+        _, which, i = case
+        chosen = _chosen_layouts(32, 8, 16)
+        if chosen is None:
+            r.rejected = "no-chosen-layouts"
+            return r
+        shapes = [(32, 16), (16, 8), (32, 8)]
+        layouts = list(chosen) + [None]
+        layouts[which] = tsl(hand3_layouts(*shapes[which])[i])
+        text = split_schedule_text(layouts)
+        acc = "snax_gemmx"
+        lay = "given"
     elif kind == "simd":
         _, M, K, lay = case
         text = simd_text(M, K)
@@ -315,7 +377,7 @@ def evaluate(case) -> CaseResult:
         _, shape, lay = case
         text = alu_text(shape, same=kind == "alu2")
         acc = "snax_alu"
-    pipe1 = f"insert-accfg-op{{accelerator={acc}}},dart-scheduler"
+    pipe1 = f"insert-accfg-op{{accelerator={acc}}}" + ("" if kind == "split3" else ",dart-scheduler")
     if lay in ("tiled", "untiled"):
         pipe1 += f",set-memory-layout{{tiled={'true' if lay == 'tiled' else 'false'}}}"
     case_j = dict(case=case, program=text)
